@@ -78,6 +78,7 @@ class Engine:
         self.kinds = {}         # name -> 'real' | 'int' | 'bool'
         self.assumptions = []   # z3 BoolRefs
         self.assumption_notes = []
+        self._floors = {}
         self.stats = Stats()
         self._valid_nopc = {}   # goal ast id -> goal (kept alive): proved without path condition
         self.concrete = None    # dict name -> value when running concretely
@@ -165,10 +166,30 @@ class Engine:
     def symbolic(self):
         return self.concrete is None
 
+    def floor_of(self, q):
+        """integer part of the finite rational value q >= 0 as a fresh Int unknown (one per distinct term)"""
+        t = S.zr(q.n)
+        key = t.sexpr()
+        ent = self._floors.get(key)
+        if ent is None:
+            name = "fl!%d" % len(self._floors)
+            i = z3.Int(name)
+            self.vars[name] = i
+            self.kinds[name] = "int"
+            ent = self._floors[key] = (name, i)
+            r = z3.ToReal(i)
+            self.assumptions.append(z3.And(r <= t, t < r + 1))
+            self.assumption_notes.append("int64 cast of a non-negative value: its integer part")
+        name, i = ent
+        return Q(S.Lin.var(name, z3.ToReal(i)))
+
+    def int_names(self):
+        return {nm for nm, k in self.kinds.items() if k == "int"}
+
     # ---- path state -------------------------------------------------------------
     def _reset_path(self):
         self.pc = []            # z3 BoolRefs (decisions taken)
-        self.decisions = []     # bools
+        self.decisions = []     # (bool, implied) per solver-decided branch, in call order
         self._known = {}        # ast id -> bool
         self._keep = []
         self._solver = None
@@ -227,8 +248,10 @@ class Engine:
             return d
         i = len(self.decisions)
         if i < len(self._prefix):
-            d = self._prefix[i]
-            self._take(cond, d)
+            # re-execution of a recorded prefix: EVERY solver-decided branch (forks and one-sided ones alike) has an entry, so
+            # the i-th branch call of this run is the i-th of the run that recorded it
+            d, implied = self._prefix[i]
+            self._take(cond, d, implied=implied)
             return d
         s = self._get_solver()
         t0 = time.time()
@@ -241,6 +264,10 @@ class Engine:
         if rt == z3.unknown or rf == z3.unknown:
             self.stats.unknown_feas += 1
         if not ft and not ff:
+            if os.environ.get("SYMX_TRACE_FORKS"):
+                import traceback
+                fr = [f for f in traceback.extract_stack() if "/symx/" not in f.filename][-3:]
+                sys.stderr.write("INFEASIBLE %s\n" % " <- ".join("%s:%d:%s" % (f.filename.split("/")[-1], f.lineno, f.name) for f in reversed(fr)))
             raise Infeasible()
         if ft and ff:
             self.stats.forks += 1
@@ -248,7 +275,7 @@ class Engine:
                 import traceback
                 fr = [f for f in traceback.extract_stack() if "/symx/" not in f.filename][-3:]
                 sys.stderr.write("FORK %s\n" % " <- ".join("%s:%d:%s" % (f.filename.split("/")[-1], f.lineno, f.name) for f in reversed(fr)))
-            self._alternatives.append(list(self.decisions) + [False])
+            self._alternatives.append(list(self.decisions) + [(False, False)])
             d = True
         else:
             d = ft
@@ -259,9 +286,9 @@ class Engine:
     def _take(self, cond, d, implied=False):
         self._known[cond.get_id()] = d
         self._keep.append(cond)   # AST ids are only unique among live ASTs: keep cached keys alive
-        if implied:
-            return
-        self.decisions.append(d)
+        self.decisions.append((d, implied))
+        # a one-sided decision is entailed by the path so far; it is kept in the path condition as a lemma (the VCs and later
+        # feasibility queries get for free what the solver already proved once)
         c = cond if d else z3.Not(cond)
         self.pc.append(c)
         if self._solver is not None:
@@ -299,6 +326,8 @@ class Engine:
         S.HOOKS.branch = self.branch
         S.HOOKS.decide_static = self.decide_static
         S.HOOKS.pick_int = self.pick_int
+        S.HOOKS.floor = self.floor_of
+        S.HOOKS.int_kinds = self.int_names
         stack = [[]]
         n = 0
         while stack:
@@ -322,6 +351,8 @@ class Engine:
         S.HOOKS.branch = self.branch
         S.HOOKS.decide_static = self.decide_static
         S.HOOKS.pick_int = self.pick_int
+        S.HOOKS.floor = self.floor_of
+        S.HOOKS.int_kinds = self.int_names
         self.guide = model
         self._prefix = []
         self._alternatives = []
